@@ -86,7 +86,14 @@ func (i *ItemIter) Next() bool {
 		return false
 	}
 	// TODO: set context based on a deadline?
-	i.iter = FetchItems(i.ctx, i.current, i.session).iter
+	nextIter := FetchItems(i.ctx, i.current, i.session)
+	if nextIter.err != nil {
+		// The request for the next page failed, there is no iterator to continue
+		// with.
+		i.err = nextIter.err
+		return false
+	}
+	i.iter = nextIter.iter
 	return i.Next()
 }
 
